@@ -302,6 +302,10 @@ def _partition_scenarios():
         dict(deltas=[("oo", "nn", 1, "ij"), ("vv", "nb", 1, "ab")], tensors=[("f", "vv", "nn", 1, "ac")], target="ka"),
         dict(deltas=[("oo", "an", 1, "ki")], tensors=[("V", "oovv", "annb", 1, "kjab"), ("V", "oovv", "nnnn", 1, "ijac")], target="kb"),
         dict(deltas=[("oo", "nn", 1, "ji")], tensors=[("V", "vvvv", "nnbn", 1, "acbc"), ("V", "oo", "nn", 1, "ij")], target="ij"),
+        # equal keys that are not adjacent in term order: a second copy of term 1, another term without deltas / V
+        dict(deltas=[("oo", "nn", 1, "ij")], tensors=[("V", "oovv", "nnnn", 1, "ijac")], target="ia"),
+        dict(deltas=[], tensors=[("f", "ov", "nn", 1, "ia")], target="ia"),
+        dict(deltas=[("vv", "nb", 1, "ab"), ("oo", "nn", 1, "ij")], tensors=[("f", "vv", "nn", 1, "ac")], target="ka"),
     ]
 
     def k_delta_types(t, _):
@@ -367,7 +371,7 @@ def _mk_partition_expr(I, TERMS):
 
 def _parts_of(value):
     """{term number: coefficient} of an accumulated part; None if something else was added."""
-    v = strip(value, VALUE_CALLS, VALUE_MCALLS, VALUE_ATTRS)
+    v = strip(_add_args(value), VALUE_CALLS, VALUE_MCALLS, VALUE_ATTRS)
     out = {}
     for c, fs in expand_products(v):
         if len(fs) == 1 and isinstance(fs[0], T) and fs[0].op == "sym" and str(fs[0].args[0])[1:].isdigit() \
@@ -395,6 +399,7 @@ def r10b_partitions(ctx):
             (lambda: dict(expr=_mk_partition_expr(I, TERMS)))
         what = f"{fname}({'' if t_name is None else repr(t_name)})"
         o = one_return(ctx, rule, fn, sx.run(fn, args), what, key=f"{what} shape")
+        n += len(TERMS)     # the scenario is evaluated, whatever the verdict (the floor guards the analysis, not the code)
         if o is None:
             continue
         if not isinstance(o.value, dict):
@@ -415,12 +420,11 @@ def r10b_partitions(ctx):
         for i, d in enumerate(TERMS):
             want = keyfn(d, t_name)
             g = got.get(i, [])
-            n += 1
             ctx.check(rule, fn, g == [(want, 1)], f"{what}: term {i} lands once in the part {want}",
                       f"{what}: term {i} (deltas {d['deltas']}, tensors {d['tensors']}, target {d['target']}) is "
                       + (f"lost (expected in the part {want})" if not g else f"found in {g}, expected once in the part {want}"),
                       key=f"{what} term {i}")
-    ctx.floor(rule, "partition placements evaluated", n, 50)
+    ctx.floor(rule, "partition placements evaluated", n, 80)
     # input guard of the tensor name
     for fname in ("by_tensor_block", "by_tensor_target_block", "by_tensor_target_indices"):
         fn = ctx.model.fn(f"sort_expr:{fname}")
@@ -476,11 +480,11 @@ def r10b_filter(ctx):
                 sx = Symex(ctx.model, inline=lambda q: q.startswith("simplify:"), hooks=hooks, what="filter_tensor")
                 what = f"filter_tensor({names}, {strict}{', keep amplitudes' if not ignore else ''})"
                 o = one_return(ctx, rule, fn, sx.run(fn, lambda: mk(names, strict, ignore)), what, key=f"{what} shape")
+                n += 1     # evaluated, whatever the verdict
                 if o is None:
                     continue
-                p = _parts_of(_add_args(o.value))
+                p = _parts_of(o.value)
                 exp = {i: 1 for i, t in enumerate(TERMS) if want(t, names, strict, ignore)}
-                n += 1
                 ctx.check(rule, fn, p == exp, f"{what} keeps exactly the terms {sorted(exp)}",
                           f"{what} returns the terms {p if p is not None else show(o.value)[:200]}, the documented selection is {sorted(exp)} "
                           f"(terms {[TERMS[i] for i in sorted(set(exp) ^ set(p or {}))]} differ)", key=what)
@@ -663,6 +667,7 @@ def r10_exploit(ctx):
         what = f"exploit_perm_sym[{w.name}: {note}]"
         outs = _run_exploit(ctx, scen, lambda: dict(expr=scen.expr(), antisymmetric_result_tensor=anti), what)
         o = one_return(ctx, rule, fn, outs, what, key=f"{w.name} shape")
+        n += 1     # evaluated, whatever the verdict
         if o is None or not isinstance(o.value, dict):
             if o is not None:
                 ctx.bad(rule, fn, f"{what}: does not return the dict of parts", key=f"{w.name} return")
@@ -685,7 +690,6 @@ def r10_exploit(ctx):
                     total = lin_add(total, w.permuted(i, perms), f)
         if not ok:
             continue
-        n += 1
         if ctx.want("R10c"):
             ctx.check("R10c", fn, not foreign, f"{what}: every recorded (P, f) belongs to the symmetry of the probe tensor",
                       f"{what}: records {foreign[:3]} which is not in the declared symmetry {symm}", key=f"{w.name} declared")
@@ -855,6 +859,7 @@ def r10_term_symmetry(ctx, thorough=False):
                        max_steps=5000000)
             what = f"Term.symmetry[{name}; {sel} indices]"
             o = one_return(ctx, "R10c", fn, sx.run(fn, mk), what, key=f"{name} {sel} shape")
+            n += 1     # evaluated, whatever the verdict
             if o is None:
                 continue
             if not isinstance(o.value, dict):
@@ -893,7 +898,6 @@ def r10_term_symmetry(ctx, thorough=False):
                 if any(x not in chosen or classes[x] != classes[y] for x, y in m):
                     outside.append(pl)
                 got[m] = f
-            n += 1
             if ctx.want("R10a"):
                 ctx.check("R10a", fn, not bad_sign, f"{what}: every reported factor is the factor of the permuted term",
                           f"{what}: reports {[(''.join(map(''.join, pl)), f) for pl, f, c in bad_sign][:4]}, but the term is mapped onto "
@@ -1057,10 +1061,10 @@ def r10_probe_symmetry(ctx):
         what = f"probe_symmetry[{w.name}: {note}; {' '.join('P_' + p for p in perms)}, factor {f:+d}]"
         sx = Symex(ctx.model, inline=_sym_inline, hooks=hooks, what=what, oracle=make_oracle(lambda w=w: w), max_paths=64)
         o = one_return(ctx, rule, fn, sx.run(fn, mk), what, key=f"{w.name} {perms} {f} shape")
+        n += 1     # evaluated, whatever the verdict
         if o is None:
             continue
         exp = _expected_map(w, perms, f)
-        n += 1
         ctx.check(rule, fn, o.value == exp, f"{what}: map {exp} = {{i: j | P t_i = {f:+d} t_j}}",
                   f"{what}: returns the map {show(o.value)[:200]}; in this world P t_i = {f:+d} t_j holds exactly for {exp}"
                   + (" (the returned map belongs to the inverse permutation)" if isinstance(o.value, dict) and
@@ -1199,6 +1203,7 @@ def r10d_product(ctx):
             return dict(cls=ClassRef(mod, "PermutationProduct"), args=tuple((ix(p), ix(q)) for p, q in perms))
         sx = Symex(ctx.model, inline=_sym_inline, hooks={}, what="PermutationProduct")
         o = one_return(ctx, rule, fn, sx.run(fn, mk), f"PermutationProduct({text})", key=f"product {text} shape")
+        n += 1     # evaluated, whatever the verdict
         if o is None:
             continue
         v = o.value
@@ -1208,7 +1213,6 @@ def r10d_product(ctx):
         except (Uninterpreted, TypeError):
             got = None
         exp = _ref_product(perms, cls_of)
-        n += 1
         ctx.check(rule, fn, got == exp, f"PermutationProduct({text}) = {' '.join(map(''.join, exp))}",
                   f"PermutationProduct({text}) holds {' '.join(map(''.join, got)) if got is not None else show(v)[:200]}; permutations of linked "
                   f"spaces keep their order and independent groups are ordered canonically: {' '.join(map(''.join, exp))}",
